@@ -21,6 +21,7 @@ import sys
 def run(cmd, cwd, env=None, timeout=3600):
     e = dict(os.environ)
     e["CARGO_NET_OFFLINE"] = "true"
+    e["VF_LOCK_HELD"] = "1"
     if env:
         e.update(env)
     p = subprocess.run(cmd, cwd=cwd, env=e, shell=isinstance(cmd, str), stdout=subprocess.PIPE, stderr=subprocess.STDOUT, text=True, timeout=timeout)
